@@ -382,7 +382,8 @@ _mk_after(2)
 _mk_after(3, "thorough")
 
 
-EXCS = [None, ValueError, KeyError, ZeroDivisionError, Exception, ReventError]
+EXCS = [None, ValueError, KeyError, ZeroDivisionError, Exception, ReventError, RuntimeError, RecursionError,
+        NotImplementedError, AttributeError, TypeError, AssertionError, OSError]
 
 
 def hraise(event, *a):
@@ -511,3 +512,61 @@ def unsubscribe_by_bound_method(b):
     "reports_a_change_and_only_the_other_handler_stays": lambda res: res[0] is True and len(res[1]) == 1 and res[1][0] is h1,
   })
 unsubscribe_by_bound_method.bound = BOUND
+
+
+# ---------------------------------------------------------------- name-based wiring
+
+class Ev2(Event):
+  pass
+
+
+class Src2(EventMixin):
+  _eventMixin_events = set([Ev, Ev2])
+
+
+class AutoSink(object):
+  def _handle_Ev(self, event):
+    return None
+
+  def _handle_Ev2(self, event):
+    return None
+
+  def _handle_Unknown(self, event):
+    return None
+
+  def _handle_pre_Ev(self, event):
+    return None
+
+  def _handle_pre_x_Ev2(self, event):
+    return None
+
+  def helper(self):
+    return None
+
+
+@unit(P, target=RV + "autoBindEvents / EventMixin.addListeners")
+def name_based_wiring_binds_exactly_the_matching_handlers(b):
+  """handlers named _handle[_<prefix>]_<EventName> are subscribed for exactly the events the source declares, once each,
+  with the given priority; other methods are not"""
+  src = b.new(Src2)
+  prio = b.int("priority", -5, 5)
+  which = b.choice("prefix", ["", "pre", "_pre", "nothing"])
+  cs = {"builtins:print": CallSpec("opaque", envelope="warning text")} if b.mode == "sym" else {}
+  def run(s, which):
+    sink = AutoSink()
+    ids = s.addListeners(sink, which, False, prio)
+    out = []
+    for t in (Ev, Ev2):
+      for e in s._eventMixin_handlers.get(t, []):
+        out.append((t, e[0], e[1] == getattr(sink, "_handle_" + ("" if which == "" else which.lstrip("_") + "_") + t.__name__, None)))
+    return (len(ids), out)
+  def expected():
+    if which == "":
+      return [(Ev, prio, True), (Ev2, prio, True)]
+    if which in ("pre", "_pre"):
+      return [(Ev, prio, True)]
+    return []
+  return Case(run, [src, which], calls=cs, raises={}, ensures={
+    "exactly_the_matching_handlers_are_subscribed": lambda res: res[0] == len(expected()) and res[1] == expected(),
+  })
+name_based_wiring_binds_exactly_the_matching_handlers.bound = "one sink class with six methods, four prefixes"
